@@ -1672,8 +1672,9 @@ theorem lg_crcv_ledger_sound_from (h : Heap) (hok : h.ok = true) (hn : h.live.No
 
 /-- **server, ledger** — for EVERY sequence of Block1 requests and drops (any order, repeated blocks, the final block
 early and again before the gap is filled, short blocks, …) and EVERY oracle: no object is ever released twice or released
-without having been allocated (`ok`), at any time the live objects are EXACTLY the lg_srcv, its body and its last_token
-(pairwise distinct), and once the lg_srcv is deleted nothing is live.
+without having been allocated (`ok`), at any time the live objects are EXACTLY the lg_srcv, its body, its last_token and
+(transfer to the unknown resource, `cfg.unk`) its copy of the URI path (pairwise distinct), and once the lg_srcv is deleted
+nothing is live.
 (Seeded C18-8 falsifies exactly this: last_token released and still referenced when the lg_srcv is deleted.) -/
 theorem lg_srcv_ledger_sound (cfg : SCfg) (orc : Oracle) (evs : List SEv) :
     let r := srcvRun cfg none { orc := orc } evs
@@ -1728,9 +1729,10 @@ theorem srcvStore_160 (cap : Nat) (lg : ASrcv) (num m len chunk tokLen : Nat) (h
 /-- **server, clean failure** — a Block1 request that is answered 5.00 (the only answer of this path for a failed
 allocation) leaves NO transfer state: the lg_srcv with everything it owned is gone (by `lg_srcv_ledger_sound`: released
 exactly once), so the client's next attempt starts from scratch -/
-theorem lg_srcv_failure_drops_state (cap : Nat) (st : Option ASrcv) (num m szx plen tokLen : Nat) (size1 : Option Nat) (h : Heap) :
-    (srcvStep cap st num m szx plen tokLen size1 h).1 = .code 160 →
-      (srcvStep cap st num m szx plen tokLen size1 h).2.1 = none := by
+theorem lg_srcv_failure_drops_state (cap : Nat) (st : Option ASrcv) (num m szx plen tokLen : Nat) (size1 : Option Nat)
+    (unk : Bool) (h : Heap) :
+    (srcvStep cap st num m szx plen tokLen size1 unk h).1 = .code 160 →
+      (srcvStep cap st num m szx plen tokLen size1 unk h).2.1 = none := by
   unfold srcvStep
   simp only
   split
@@ -1743,6 +1745,65 @@ theorem lg_srcv_failure_drops_state (cap : Nat) (st : Option ASrcv) (num m szx p
     · simp
     · exact srcvStore_160 _ _ _ _ _ _ _ _
 
+/-- **server, the lg_srcv that cannot be set up** — no transfer state yet and the lg_srcv itself or (transfer to the unknown
+resource) the copy of the URI path cannot be allocated: NO lg_srcv is left, nothing has been released that was not
+allocated, and the live objects are exactly (as a list) what they were — the lg_srcv allocated first has been released
+again with a plain coap_free_type, it was not yet in session->lg_srcv.  (Seeded C18-12 takes the path of the transfers
+that ARE in the list, `goto free_lg_srcv`: LL_DELETE of an element that is not in an empty list dereferences NULL; the
+unfixed code kept the lg_srcv with uri_path == NULL: NULL dereference in the next look-up for another resource.) -/
+theorem lg_srcv_setup_failure_atomic (szx : Nat) (size1 : Option Nat) (unk : Bool) (h : Heap) (hok : h.ok = true) :
+    (srcvLocate none szx size1 unk h).1 = none →
+      (srcvLocate none szx size1 unk h).2.ok = true ∧ (srcvLocate none szx size1 unk h).2.live = h.live := by
+  unfold srcvLocate
+  simp only
+  rcases hA : h.alloc with ⟨_ | i, h1⟩
+  · obtain ⟨e1, _, e3⟩ := alloc_none_eq h (by rw [hA])
+    rw [hA] at e1 e3
+    intro _
+    exact ⟨by simpa [hok] using e3, e1⟩
+  · obtain ⟨e0, e1, _, e3⟩ := alloc_some_eq h i (by rw [hA])
+    rw [hA] at e1 e3
+    simp only at e1 e3
+    cases unk with
+    | false => simp
+    | true =>
+      simp only [if_true]
+      rcases hB : h1.alloc with ⟨_ | p, h2⟩
+      · obtain ⟨f1, _, f3⟩ := alloc_none_eq h1 (by rw [hB])
+        rw [hB] at f1 f3
+        simp only at f1 f3
+        intro _
+        simp [Heap.free, f1, f3, e1, e3, hok]
+      · simp
+
+/-- a transfer to the unknown resource whose URI path cannot be copied is answered 5.00 and leaves the ledger as it was -/
+theorem lg_srcv_uri_path_failure (cap num m szx plen tokLen : Nat) (size1 : Option Nat) (h : Heap) (hok : h.ok = true)
+    (hblk : ¬ (num = 0 ∧ m = 0))
+    (hlen : ¬ (¬ plen > 2 ^ (szx + 4) ∧ m = 1 ∧ plen ≠ 2 ^ (szx + 4)))
+    (hA : h.alloc.1.isSome = true) (hB : h.alloc.2.alloc.1 = none) :
+    let r := srcvStep cap none num m szx plen tokLen size1 true h
+    r.1 = .code 160 ∧ r.2.1 = none ∧ r.2.2.ok = true ∧ r.2.2.live = h.live := by
+  intro r
+  have hL : (srcvLocate none szx size1 true h).1 = none := by
+    unfold srcvLocate
+    rcases hA' : h.alloc with ⟨_ | i, h1⟩
+    · simp [hA'] at hA
+    · rw [hA'] at hB
+      simp only at hB
+      rcases hB' : h1.alloc with ⟨_ | p, h2⟩
+      · simp [hB']
+      · simp [hB'] at hB
+  have hS := lg_srcv_setup_failure_atomic szx size1 true h hok hL
+  have hr : r = (.code 160, none, (srcvLocate none szx size1 true h).2) := by
+    show srcvStep cap none num m szx plen tokLen size1 true h = _
+    unfold srcvStep
+    simp only [hblk, hlen, if_false]
+    rcases hl : srcvLocate none szx size1 true h with ⟨_ | lg, h1⟩
+    · rfl
+    · rw [hl] at hL; simp at hL
+  rw [hr]
+  exact ⟨rfl, rfl, hS.1, hS.2⟩
+
 theorem two_chunks_div (c : Nat) (hc : 0 < c) : (c + c - 1) / c = 1 := by
   have h1 : c + c - 1 = c * 1 + (c - 1) := by omega
   rw [h1, Nat.mul_add_div hc]
@@ -1751,30 +1812,43 @@ theorem two_chunks_div (c : Nat) (hc : 0 < c) : (c + c - 1) / c = 1 := by
 
 /-- **server, the next operation succeeds** — with memory available and no transfer state (as after a failure, see
 `lg_srcv_failure_drops_state`) the first block of a body is accepted: 2.31, a new lg_srcv with the block recorded and stored -/
-theorem lg_srcv_restart_succeeds (cap szx tokLen : Nat) (size1 : Option Nat) (h : Heap) (hc : 2 ≤ cap) (ho : AllTrue h.orc) :
-    ∃ lg h', srcvStep cap none 0 1 szx (2 ^ (szx + 4)) tokLen size1 h = (.code 95, some lg, h') ∧
-      lg.recv = [(0, 0)] ∧ lg.body.isSome = true ∧ lg.lastTok = none := by
+theorem lg_srcv_restart_succeeds (cap szx tokLen : Nat) (size1 : Option Nat) (unk : Bool) (h : Heap) (hc : 2 ≤ cap)
+    (ho : AllTrue h.orc) :
+    ∃ lg h', srcvStep cap none 0 1 szx (2 ^ (szx + 4)) tokLen size1 unk h = (.code 95, some lg, h') ∧
+      lg.recv = [(0, 0)] ∧ lg.body.isSome = true ∧ lg.lastTok = none ∧ lg.uriPath.isSome = unk := by
   have hpos : 0 < 2 ^ (szx + 4) := Nat.pow_pos (by omega)
   obtain ⟨a1, a2⟩ := alloc_allTrue h ho
   obtain ⟨b1, b2⟩ := alloc_allTrue h.alloc.2 a2
+  obtain ⟨c1, _⟩ := alloc_allTrue h.alloc.2.alloc.2 b2
   have hrl : Block.recvLoop cap 1 [] 0 false = some ([(0, 0)], true) := by
     have : ¬ (0 = cap - 1) := by omega
     simp [Block.recvLoop, Block.checkIfReceived, Block.updateReceived, Block.updateLoop, this]
   unfold srcvStep srcvLocate
   rcases hA : h.alloc with ⟨x, h1⟩
-  rw [hA] at a1 a2 b1 b2
-  simp only at a1 a2 b1 b2
+  rw [hA] at a1 a2 b1 b2 c1
+  simp only at a1 a2 b1 b2 c1
   subst a1
-  simp only [Nat.lt_irrefl, not_false_eq_true, ne_eq, not_true_eq_false, and_false, if_false, if_true,
-    srcvStore, Nat.mod_self, Nat.zero_mul, Nat.zero_add, two_chunks_div _ hpos, hrl, srcvUpdate, buildBody]
   generalize hT : (if size1.getD 0 < 2 ^ (szx + 4) then 2 ^ (szx + 4) else size1.getD 0) = T
   have hT1 : 2 ^ (szx + 4) ≤ T := by rw [← hT]; split <;> omega
   have hT0 : T ≠ 0 := by omega
   rcases hB : h1.alloc with ⟨y, h2⟩
-  rw [hB] at b1
-  simp only at b1
+  rw [hB] at b1 b2 c1
+  simp only at b1 b2 c1
   subst b1
-  simp [hT0, hT1, srcvDecide]
+  cases unk with
+  | false =>
+    simp only [Nat.lt_irrefl, not_false_eq_true, ne_eq, not_true_eq_false, and_false, if_false, if_true,
+      srcvStore, Nat.mod_self, Nat.zero_mul, Nat.zero_add, two_chunks_div _ hpos, hrl, srcvUpdate, buildBody, hT, hB,
+      Bool.false_eq_true]
+    simp [hT0, hT1, srcvDecide]
+  | true =>
+    rcases hC : h2.alloc with ⟨z, h3⟩
+    rw [hC] at c1
+    simp only at c1
+    subst c1
+    simp only [Nat.lt_irrefl, not_false_eq_true, ne_eq, not_true_eq_false, and_false, if_false, if_true,
+      srcvStore, Nat.mod_self, Nat.zero_mul, Nat.zero_add, two_chunks_div _ hpos, hrl, srcvUpdate, buildBody, hT, hB, hC]
+    simp [hT0, hT1, srcvDecide]
 
 /-- **client, the next operation succeeds** — with memory available coap_block_new_lg_crcv for a FETCH with Observe 0 gives
 an lg_crcv whose list holds exactly the token of block 0 -/
@@ -1830,6 +1904,16 @@ example :
       [.block 0 1 512, .block 4 0 452, .block 4 0 452, .block 0 1 512, .block 1 1 512, .block 2 1 512, .block 3 1 512, .block 4 0 452]
     r.1 = [.code 95, .code 0, .code 160, .code 95, .code 95, .code 95, .code 95, .deliver 2500] ∧ r.2.1 = none ∧
       r.2.2.ok = true ∧ r.2.2.live = [] := by decide
+
+/-- server, transfer to the UNKNOWN resource (`unk`): the copy of the URI path (request 2) cannot be made — 5.00, no state,
+nothing live (`lg_srcv_uri_path_failure` on a concrete heap); the body sent again with memory available, the final block
+early: handed over complete, and the path copy is released with the lg_srcv (nothing live at the end) -/
+example :
+    let cfg : SCfg := { cap := 4, szx := 5, tokLen := 2, size1 := none, unk := true }
+    let r := srcvRun cfg none { orc := oracleFailing 2 0 2 }
+      [.block 0 1 512, .block 0 1 512, .block 2 0 100, .block 1 1 512]
+    r.1 = [.code 160, .code 95, .code 0, .deliver 1124] ∧ r.2.1 = none ∧ r.2.2.ok = true ∧ r.2.2.live = [] ∧
+      r.2.2.reqs = 9 := by decide
 
 end BlockContainers
 
